@@ -29,6 +29,7 @@ fn gens(tier: Tier) -> Vec<Gen> {
         Gen { name: "random", count: tier.pick(3_000, 300_000), exhaustive: false, run: run_random },
         Gen { name: "large", count: tier.pick(150, 5_000), exhaustive: false, run: run_large },
         Gen { name: "nobody", count: 48, exhaustive: true, run: run_nobody },
+        Gen { name: "both-framings", count: 2 * 3 * 14, exhaustive: true, run: run_both_framings },
     ]
 }
 
@@ -325,5 +326,58 @@ fn run_nobody(ctx: &mut Ctx, _rng: &mut Rng, index: u64) {
             }
         }
     }
+    ctx.nontrivial(descr.as_bytes());
+}
+
+/// A response carrying BOTH `Transfer-Encoding: chunked` and a Content-Length is chunked (C03);
+/// the pause rules are the same: send() returns at the blank line, complete chunks are readable.
+fn run_both_framings(ctx: &mut Ctx, _rng: &mut Rng, index: u64) {
+    let body = b"4\r\nwiki\r\n5\r\npedia\r\n0\r\n\r\n";
+    let mut i = index as usize;
+    let cl_first = i % 2 == 0;
+    i /= 2;
+    let seg = i % 3;
+    i /= 3;
+    let pause_body_off = [0usize, 1, 3, 8, 9, 10, 12, 13, 19, 20, 21, 23, 24, 25][i % 14];
+    let head = if cl_first { "HTTP/1.1 200 OK\r\nContent-Length: 9\r\nTransfer-Encoding: chunked\r\n\r\n" } else { "HTTP/1.1 200 OK\r\nTransfer-Encoding: chunked\r\nContent-Length: 9\r\n\r\n" };
+    let mut wire = head.as_bytes().to_vec();
+    wire.extend_from_slice(&body[..pause_body_off.min(body.len())]);
+    let mut steps = match seg {
+        0 => Segmentation::Whole.apply(&wire),
+        1 => Segmentation::Bytewise.apply(&wire),
+        _ => Segmentation::Cuts(vec![head.len()]).apply(&wire),
+    };
+    steps.push(Step::Pause);
+    let world = World::single(steps);
+    let d = chunked::decode(&body[..pause_body_off.min(body.len())]);
+    let available = d.complete_chunks_len;
+    let descr = format!("both framing headers ({}), pause at body offset {pause_body_off}, seg {seg}, available {available}", if cl_first { "Content-Length first" } else { "Transfer-Encoding first" });
+    let mut resp = match attohttpc::get("http://origin.test/c19").send() {
+        Ok(r) => r,
+        Err(e) => {
+            let blocked = world.trace(0).blocked_reads;
+            ctx.violation(if blocked > 0 { "send-blocked-after-head" } else { "send-failed" }, format!("send() did not return Ok after the complete head (blocked reads: {blocked}): {e:?}; {descr}"));
+            return;
+        }
+    };
+    if world.trace(0).blocked_reads > 0 {
+        ctx.violation("send-blocked-after-head", format!("send() asked for bytes beyond the head; {descr}"));
+        return;
+    }
+    let mut got = Vec::new();
+    let mut buf = [0u8; 64];
+    while got.len() < available {
+        match resp.read(&mut buf) {
+            Ok(n) if n > 0 && world.trace(0).blocked_reads == 0 => got.extend_from_slice(&buf[..n]),
+            other => {
+                ctx.violation("blocked-while-data-available:chunked", format!("read gave {other:?} (blocked transport reads {}) with {} of {available} available bytes delivered; {descr}", world.trace(0).blocked_reads, got.len()));
+                return;
+            }
+        }
+    }
+    if !b"wikipedia".starts_with(&got[..]) {
+        ctx.violation("delivered-bytes-differ", format!("{:?}; {descr}", show(&got)));
+    }
+    ctx.count("both_framings_cases", 1);
     ctx.nontrivial(descr.as_bytes());
 }
